@@ -2,6 +2,8 @@
 import json
 import lib
 
+SHAPES = ["json+missing", "json+emptydir", "tmpl+missing", "json+dotdir", "dir+json+emptyjson", "emptyjson+json", "dir+textfile",
+          "tmpl+json+emptydir", "missing+dir", "json+tmpl"]
 SCENARIOS = ["override", "restore", "restore-dirty", "overwrite-only", "backup-only", "rebackup"]
 
 
@@ -41,7 +43,9 @@ def run(run):
                 "analyze_and_overwrite_pages, add_page and init_wikidata_cache as a kill point (os._exit without cleanup) in five "
                 "flows: override (backup, overwrite, close), restore after a clean override, restore after an override that left "
                 "a write-ahead log behind, overwrite without backup, backup only, and a killed backup followed by new content and a "
-                "complete backup+overwrite+close (the restore must bring back the second backup's content); two database sizes (the larger one makes the "
+                "complete backup+overwrite+close (the restore must bring back the second backup's content); the override and restore "
+                "flows also with lists of several override paths (JSON files, directories of TITLE files, missing paths, empty "
+                "directories, dotfile-only directories, empty JSON, with and without a template among the pages); two database sizes (the larger one makes the "
                 "backup several pages long); a sample of kill points is followed by a second kill during the next reopen; "
                 "non-trivial = kill point inside the flow; distinct by (scenario, size, kill point)")
     run.trusted = [
@@ -56,6 +60,9 @@ def run(run):
     quick = run.tier == "quick"
     sizes = [(6, False)] + ([(40, True)] if not quick else [(25, True)])
     probes = [{"scenario": sc, "n": n, "big": big} for sc in SCENARIOS for n, big in sizes]
+    # override path lists of several kinds (which path contributes pages, in which format, with or without a template)
+    shapes = SHAPES if not quick else [SHAPES[(run.seed + j) % len(SHAPES)] for j in range(4)] + SHAPES[:2]
+    probes += [{"scenario": sc, "n": 6, "big": False, "shape": sh} for sh in dict.fromkeys(shapes) for sc in ("override", "restore")]
     pres = lib.run_impl("c11", probes, shards=len(probes))
     cases = []
     for pc, pr in zip(probes, pres):
@@ -64,10 +71,12 @@ def run(run):
             continue
         total = pr["lines"]
         ok, why = expected_ok(pc, pr)
-        run.count([pc["scenario"], pc["n"], "no-kill"], False, "no-kill")
+        run.count([pc["scenario"], pc["n"], pc.get("shape"), "no-kill"], False, "no-kill")
         if not ok:
             run.property_failure("c11:%s:no-kill:%s" % (pc["scenario"], why), "flow %s without any crash: %r" % (pc["scenario"], pr), pc)
         step = (2 if quick else 1) if not pc["big"] else max(1, total // (25 if quick else 120))
+        if pc.get("shape"):
+            step = 5 if quick else 2
         for k in range(1, total + 1, step):
             c = dict(pc, kill=k)
             if k % 7 == 0 and pc["scenario"] in ("override", "restore", "restore-dirty"):
@@ -76,7 +85,7 @@ def run(run):
     res = lib.run_impl("c11", [dict(c, _timeout=200) for c in cases], shards=lib.NCPU)
     run.extra["kill_points"] = len(cases)
     for c, r in zip(cases, res):
-        run.count([c["scenario"], c["n"], c["kill"], c.get("second_kill")], True, c["scenario"])
+        run.count([c["scenario"], c["n"], c["kill"], c.get("second_kill"), c.get("shape")], True, c["scenario"])
         if r.get("outcome") != "ok":
             run.property_failure("c11:%s:harness:%s:%s" % (c["scenario"], r.get("outcome"), r.get("exc", "")),
                                  "trial did not complete: %r" % (r,), c)
